@@ -60,7 +60,9 @@ func c16Scenario(c *Ctx, idx int, r *Rng) (mline, mimpl, mcase string) {
 	log := func(f string, a ...interface{}) { steps = append(steps, fmt.Sprintf(f, a...)) }
 	log("locksverify=%s setlockablereadonly=%v pagesize=%d", verify, readonly, srv.pageSize)
 	w.write(".gitattributes", []byte("*.dat filter=lfs -text lockable\n*.bin filter=lfs -text\n*.txt lockable\n"))
-	lockables := []string{"a.dat", "b.dat", "dir/c.dat", "my file.dat", "t.txt"}
+	// a slash-less lockable pattern in the attributes file of a sub-directory applies at any depth below it (D80)
+	w.write("nest/.gitattributes", []byte("*.cfg lockable\n"))
+	lockables := []string{"a.dat", "b.dat", "dir/c.dat", "my file.dat", "t.txt", "nest/deep/k.cfg"}
 	others := []string{"n.bin", "plain.md"}
 	for _, f := range append(append([]string(nil), lockables...), others...) {
 		w.write(f, r.Bytes(40))
